@@ -83,6 +83,7 @@ def run_case(case):
     graph = al.graph_from_mask(n, case["mask"], pos)
     im = maps.inmem(graph)
     sm = maps.sqlite(graph)
+    sm1 = maps.sqlite(graph, name="s1", bulk=False)     # same content through add_node / add_edge
     mini0 = {"coords": case["coords"], "n": n, "mask": case["mask"]}
 
     def bad(msg, **extra):
@@ -120,6 +121,11 @@ def run_case(case):
                 cmp(f"edges_nbrto(({a_},{b_}))", lambda: [x for x in norm_edges(im.edges_nbrto((a_, b_))) if x[0] != x[2]],
                     lambda: norm_edges(sm.edges_nbrto((a_, b_))))
             cmp("all_edges()", lambda: norm_edges(im.all_edges()), lambda: norm_edges(sm.all_edges()))
+            cmp("all_edges() [single inserts]", lambda: norm_edges(im.all_edges()), lambda: norm_edges(sm1.all_edges()))
+            cmp("all_nodes() [single inserts]", lambda: norm_nodes(im.all_nodes()), lambda: norm_nodes(sm1.all_nodes()))
+            cmp("bb() [single inserts]", lambda: tuple(map(float, im.bb())), lambda: tuple(map(float, sm1.bb())))
+            for k in graph:
+                cmp(f"nodes_nbrto({k}) [single inserts]", lambda: [x for x in norm_nodes(im.nodes_nbrto(k)) if x[0] != k], lambda: norm_nodes(sm1.nodes_nbrto(k)))
             cmp("all_nodes()", lambda: norm_nodes(im.all_nodes()), lambda: norm_nodes(sm.all_nodes()))
             bbv = cmp("bb()", lambda: tuple(map(float, im.bb())), lambda: tuple(map(float, sm.bb())))
             # bb() against the definition as well (both backends could be wrong together)
@@ -155,7 +161,7 @@ def run_case(case):
                 for kind, ne in cfgs:
                     res["st"] += 1
                     r = []
-                    for mp in (im, sm):
+                    for mp in (im, sm, sm1):
                         res["n"] += 1
                         if kind == "simple":
                             m = SimpleMatcher(mp, non_emitting_states=ne, only_edges=True, obs_noise=1.0)
@@ -169,18 +175,20 @@ def run_case(case):
                             r.append(("EXC", repr(exc), 0))
                     res["tr"] += 1
                     res["tv"] += 1
-                    a, b = r
-                    same = a[0] == b[0] and ((a[1] is None and b[1] is None) or (
-                        a[1] is not None and b[1] is not None and not isinstance(a[1], str) and not isinstance(b[1], str)
-                        and abs(a[1] - b[1]) <= 1e-9 * max(1.0, abs(a[1]))))
-                    if not same:
-                        bad(f"match({trace}) with {kind}, non_emitting={ne}: in-memory (index, logprob) = {a[:2]}, SQLite = {b[:2]}",
-                            trace=trace, cfg=[kind, ne])
+                    a = r[0]
+                    for b, how in ((r[1], "SQLite (bulk inserts)"), (r[2], "SQLite (single inserts)")):
+                        same = a[0] == b[0] and ((a[1] is None and b[1] is None) or (
+                            a[1] is not None and b[1] is not None and not isinstance(a[1], str) and not isinstance(b[1], str)
+                            and abs(a[1] - b[1]) <= 1e-9 * max(1.0, abs(a[1]))))
+                        if not same:
+                            bad(f"match({trace}) with {kind}, non_emitting={ne}: in-memory (index, logprob) = {a[:2]}, {how} = {b[:2]}",
+                                trace=trace, cfg=[kind, ne])
                     if a[2]:
                         res["nt"] += 1
                     outs.add(("m", a[0], None if a[1] is None or isinstance(a[1], str) else round(a[1], 9)))
     finally:
         maps.close(sm)
+        maps.close(sm1)
     res["out"] = sorted(outs, key=repr)
     return res
 
